@@ -141,11 +141,16 @@ def check_c02(ctx, sess, out):
         if not close(r.lp, e.logprob, 1e-9, 1e-9):
             kind = "emitting" if e.obs_ne == 0 else "non-emitting"
             cls = "C02/logprob/%s/%s" % (model.family, kind)
-            # Root-cause attribution for the listed finding (stale derived entry): the matcher has been
-            # expanded at least once (widen / extend) and the predecessor on the path was touched in a
-            # later round than this entry was derived in (its `delayed` round number is higher): it was
-            # replaced in place or re-postponed by pruning after this entry had been computed from it.
-            if sess.matcher.expand_now > 0 and i >= 1 and e.delayed < lb[i - 1].delayed:
+            # Root-cause attribution for the listed finding D14 (stale derived entry).  The matcher has
+            # been expanded at least once (widen / extend) and, for the predecessor p on the path, either
+            #  - p is postponed again (p.delayed > expand_now): it was replaced in place / re-pruned after
+            #    this entry had been derived from it and will only be expanded again by a later widening, or
+            #  - p is ALSO among this entry's rejected predecessors (`prev_other`): the entry was derived
+            #    again from the replaced p and the new value was rejected because it was worse.
+            # An expanded predecessor that is not in prev_other (e.g. an entry that was updated but never
+            # re-expanded) is NOT covered and stays an unlisted violation.
+            E_now = sess.matcher.expand_now
+            if E_now > 0 and i >= 1 and (lb[i - 1].delayed > E_now or lb[i - 1] in e.prev_other):
                 cls = "C02/logprob/stale-after-expansion"
             vs.append(V(cls, where + " reported=%r model=%r" % (e.logprob, r.lp), out))
             return vs
